@@ -23,7 +23,9 @@
    The code as it is = [run true true true].
    Statements with "forall fx fs fr" hold for all eight combinations.
    Trusted assumption: uv__signal_start, uv__signal_stop and the handler are atomic
-   with respect to each other (signals blocked + lock). *)
+   with respect to each other (signals blocked + lock); the locking protocol itself is
+   modelled and proved (C13_handler_never_in_lock_holder), trusted remain the kernel's
+   signal masks and the atomicity of 1-byte pipe reads/writes. *)
 From UV Require Import Lib.Base Model.Signal Proofs.SignalProofs.
 From Coq Require Import Sorting.Sorted.
 
@@ -438,6 +440,39 @@ Theorem C13_close_stop_reuse_behaviour :
    In (ECloseCb 0) (tr s2)).
 Proof. exact close_stop_reuse_behaviour. Qed.
 Print Assumptions C13_close_stop_reuse_behaviour.
+
+(* ---- "signals raised while handles are being started or stopped": the critical sections ---- *)
+
+(* Model [csys] (end of Model/Signal.v): any number of threads making API calls that enter the
+   critical section of uv__signal_start / uv__signal_stop, the kernel running the handler in any
+   thread that does not block the signal, the lock = a pipe with one token.  For the code as it is
+   (uv__signal_block_and_lock: block every signal, THEN take the lock; uv__signal_unlock_and_unblock:
+   release, THEN restore the mask; handler with sa_mask full), for every number of threads and
+   calls and every schedule of steps and signal deliveries:
+   (1) at most one thread holds the lock, (2) a thread holds it only while it blocks every signal,
+   (3) a handler never starts in a thread that holds the lock (when it asks for the lock its thread
+       holds nothing and was interrupted between two calls) - so start/stop and a delivery exclude
+       each other and no thread can wait for a token it holds itself.
+   The check ties the order to the code: every access to the lock pipe is observed (wrapped
+   read/write) and must be made with all signals blocked in the calling thread. *)
+Theorem C13_handler_never_in_lock_holder :
+  forall n calls cs,
+  let st := crun true (cinit n calls) cs in
+  holders (c_thr st) <= 1 /\
+  (forall x, In x (c_thr st) -> c_holds x = true -> c_blocked x = true) /\
+  (forall x, In x (c_thr st) -> c_pc x = CH1 -> c_holds x = false /\ c_saved x = CIdle).
+Proof. exact handler_never_in_lock_holder. Qed.
+Print Assumptions C13_handler_never_in_lock_holder.
+
+(* the other order (take the lock, then block) is refuted: one thread, one call, a signal in the
+   window: the handler waits for the token its own thread holds; no step changes the state again *)
+Theorem C13_lock_before_block_deadlocks :
+  let st := crun false (cinit 1 1) [CRun 0; CSignal 0] in
+  c_token st = false /\
+  (exists x, c_thr st = [x] /\ c_pc x = CH1 /\ c_holds x = true /\ c_calls x = 1) /\
+  (forall c, cstep false st c = st).
+Proof. exact lock_before_block_deadlocks. Qed.
+Print Assumptions C13_lock_before_block_deadlocks.
 
 (* ---- the hypotheses are satisfiable: a reachable, non-trivial state ---- *)
 Example C13_example_run :
